@@ -353,6 +353,58 @@ OOF = {
 
 
 def conserve_documents(thorough):
+    yield from block_conserve_documents(thorough)
+    yield from group_conserve_documents(thorough)
+
+
+def group_conserve_documents(thorough):
+    """-> same tuples: a table of twelve row groups (one 20px row or two 10px rows each) that spans three pages of
+    100px, with break-after / break-before: avoid between two of its row groups - every boundary in turn, so also
+    those reached on the second and third page of the table, where the break moves to an earlier boundary between row
+    groups of a continuation page; with and without a repeated header, after 0 or 2 lines of text."""
+    for at, side, per_group, head, pre, value in itertools.product(
+            range(1, 12), ('after', 'before'), (1, 2), (False, True), (0, 2), ('avoid', 'avoid-page')):
+        if not thorough and (value == 'avoid-page' or (pre and (head or per_group == 2))):
+            continue
+        words = Words()
+        flow, by_group = [], []
+        body = ''
+        for _ in range(pre):
+            word = words.take()
+            flow.append(word)
+            body += f'<p>w{word}</p>'
+        header = []
+        table = ''
+        if head:
+            word = words.take()
+            header.append(word)
+            table += f'<thead><tr><td style="height:20px">w{word}</td></tr></thead>'
+        for g in range(12):
+            style = ''
+            if side == 'after' and g == at - 1:
+                style = f'break-after:{value}'
+            if side == 'before' and g == at:
+                style = f'break-before:{value}'
+            rows, ids = '', []
+            for _ in range(per_group):
+                word = words.take()
+                ids.append(word)
+                rows += f'<tr><td style="height:{20 // per_group}px">w{word}</td></tr>'
+            flow += ids
+            by_group.append(ids)
+            table += f'<tbody style="{style}">{rows}</tbody>'
+        word = words.take()
+        flow.append(word)
+        body += f'<table style="border-spacing:0;border-collapse:collapse">{table}</table><p>w{word}</p>'
+        groups = [[0, flow]] + ([[2, header]] if header else [])
+        html = (f'<html><head><style>@page{{size:100px 100px;margin:0}}{STYLE}td{{padding:0}}</style></head>'
+                f'<body>{body}</body></html>')
+        values = [value, 'auto'] if side == 'after' else ['auto', value]
+        yield (f'ac-groups-{side}{at}-{value}-r{per_group}-h{int(head)}-p{pre}', html, groups,
+               (by_group[at - 1], by_group[at], values))
+
+
+def block_conserve_documents(thorough):
     """-> (doc id, html, groups, (words of A, words of B, values)) : five blocks of 30px on a 100px page; the fourth
     does not fit and an avoid between the third and the fourth moves the break before the third; out-of-flow boxes
     sit between the blocks (one, or two at different places), flat in the body or inside a container."""
@@ -418,7 +470,9 @@ def add_conserve(prop, run):
         'and fourth of five 30px blocks on a 100px page moves the break to the earlier point, with floats, absolutely '
         'and fixed positioned boxes between the blocks (every place, two at once), flat or inside containers: every '
         'word rendered exactly once in order and the avoid honoured, judged by the Lean checker avoid-conserve '
-        '(C04Table.avoid_conserve_sound); non-trivial = the document has at least 2 pages')
+        '(C04Table.avoid_conserve_sound); and a table of twelve row groups over three pages with an avoid between two row '
+        'groups at every boundary in turn (first and continuation pages, repeated header or not); non-trivial = the '
+        'document has at least 2 pages')
     for doc_id, html, groups, between in conserve_documents(run.thorough):
         try:
             line, meta, nontrivial = conserve_case(doc_id, html, groups, between)
